@@ -173,7 +173,8 @@ enum Input {
     Raw(u8),
 }
 const TOOL_KINDS: u8 = 13;
-const TASK_CMDS: u8 = 6;
+const TASK_CMDS: u8 = 7;
+const RAW_KINDS: u8 = 7;
 
 #[derive(Clone, Debug)]
 enum Op {
@@ -359,7 +360,7 @@ fn gen_input(r: &mut Rng) -> Input {
         6..=14 => Input::Tool { tool: r.below(TOOL_KINDS as u64) as u8, text: gen_small_txt(r), num: if r.chance(1, 3) { Some(gen_num_bits(r)) } else { None }, timeout: r.chance(1, 4) },
         15..=16 => Input::CkptCreate { label: gen_small_txt(r), files: r.below(4) as u8 },
         17 => Input::CkptRewind { k: r.below(3) as u32 },
-        _ => Input::Raw(r.below(6) as u8),
+        _ => Input::Raw(r.below(RAW_KINDS as u64) as u8),
     }
 }
 
@@ -406,6 +407,8 @@ fn builtin_histories() -> Vec<History> {
                 tool(10, None),
                 Op::Task { cmd: 1, title: Some(t(2, 1)), num: None },
                 Op::Task { cmd: 3, title: None, num: None },
+                Op::Session { input: Input::Raw(6), link: None, wait: true },
+                Op::Task { cmd: 6, title: None, num: None },
             ],
         ),
         // cache loss under a session engine: linked runs append message / run_spawned / side effects / run_ended
@@ -987,7 +990,10 @@ fn build_input(env: &Env, input: &Input) -> String {
             let id = if env.checkpoints.is_empty() { "no-such-checkpoint".to_string() } else { env.checkpoints[(*k as usize) % env.checkpoints.len()].clone() };
             json!({"checkpoint": {"action": "rewind", "id": id}}).to_string()
         }
-        Input::Raw(k) => match k % 6 {
+        Input::Raw(k) => match k % RAW_KINDS {
+            // tool arguments nested deeper than a frame can carry (rip_kernel::MAX_PAYLOAD_NESTING = 125): the input is
+            // not taken as a tool command (W2b: a tool_started frame around them was unreadable inside the snapshot)
+            6 => format!("{{\"tool\":\"ls\",\"args\":{{\"path\":\".\",\"deep\":{}1{}}}}}", "[".repeat(125), "]".repeat(125)),
             0 => "{not json}".to_string(),
             1 => "  {\"tool\":\"ls\",\"args\":{\"path\":\".\"}}  \n".to_string(),
             2 => "{}".to_string(),
@@ -1145,10 +1151,19 @@ async fn run_task_op(env: &mut Env, cmd: u8, title: &Option<Txt>, num: &Option<u
         2 => "printf '\\377\\376\\n'; printf 'tail'",
         3 => "seq 1 300",
         4 => "",
+        6 => "printf 'never runs'",
         // output that arrives while the task keeps running: several delta frames with time in between
         _ => "printf 'tick\\n'; sleep 0.25; printf 'err\\n' 1>&2; sleep 0.25; printf 'tock\\n'; sleep 0.25; printf 'done'",
     };
     let mut args = json!({"command": command});
+    if cmd % TASK_CMDS == 6 {
+        // arguments nested deeper than a frame can carry: the request is refused (400), no task stream exists
+        let mut deep = json!(1);
+        for _ in 0..125 {
+            deep = Value::Array(vec![deep]);
+        }
+        args["zz_deep"] = deep;
+    }
     if let Some(bits) = num {
         args["zz_num"] = num_value(*bits);
     }
